@@ -337,22 +337,31 @@ theorem C05_gen_no_raise (fuel : Nat) (c : Call) (hc : Covered fuel c) (hr : c.m
   exact ⟨_, w', h1, h3, by rw [h2]; exact hadm⟩
 
 open Ebb3Gen in
-/-- the same along any history of in-domain request calls of S: the history runs to its end and no call raises -/
+/-- the same along any history over ALL public methods (`connect`, `find_first`, the helpers and `disconnect`
+included; request calls with in-domain arguments), started in a `Good` world with a script from the fault alphabet
+whose inputs satisfy the static side conditions `Env` (see `C04_gen_history`): the history runs to its end — no call
+runs out of fuel —, and every *request* call returns a value, wherever it stands in the history.  (`connect` itself
+may raise by design: a fault of its last exchange, `InvalidVersion`, `TypeError`; it still leaves a world of the domain,
+so the request calls after it are covered.) -/
 theorem C05_gen_no_raise_history (fuel : Nat) : ∀ (cs : List Call) (w : PyObj.World Gen.EBB3_Obj),
-    (∀ c ∈ cs, Covered fuel c ∧ c.method.isRequest = true ∧ c.InDomain) → Good w → HistPre fuel cs w →
+    (∀ c ∈ cs, Covered fuel c ∧ (c.method.isRequest = true → c.InDomain)) → Good w → (∀ c ∈ cs, Env c w) →
     AdmScript (absWorld w) →
-    (genCalls fuel cs w).length = cs.length ∧ ∀ o ∈ genCalls fuel cs w, ∃ v w', o = .val v w'
-  | [], _, _, _, _, _ => ⟨rfl, fun o ho => by simp [genCalls] at ho⟩
+    (genCalls fuel cs w).length = cs.length ∧
+      ∀ co ∈ List.zip cs (genCalls fuel cs w), co.1.method.isRequest = true → ∃ v w', co.2 = .val v w'
+  | [], _, _, _, _, _ => ⟨rfl, fun co hco => by simp [genCalls] at hco⟩
   | c :: cs, w, hc, hg, hp, ha => by
-    obtain ⟨hc1, hr1, hd1⟩ := hc c List.mem_cons_self
-    obtain ⟨v, w', h1, hg', ha'⟩ := C05_gen_no_raise fuel c hc1 hr1 hd1 w hg hp.1 ha
-    have ih := C05_gen_no_raise_history fuel cs w' (fun c' hc' => hc c' (List.mem_cons_of_mem _ hc')) hg'
-      (hp.2 w' (by rw [h1]; rfl)) ha'
-    simp only [genCalls, h1, outWorld, List.length_cons, List.mem_cons]
-    refine ⟨by rw [ih.1], fun o ho => ?_⟩
-    rcases ho with rfl | ho
-    · exact ⟨v, w', rfl⟩
-    · exact ih.2 o ho
+    obtain ⟨hc1, hd1⟩ := hc c List.mem_cons_self
+    have hpre := (hp c List.mem_cons_self).pre
+    obtain ⟨w1, h1, -, hg1⟩ := sim_world (gen_bridge fuel c hc1 w hg hpre)
+    have hfr : Fr w w1 := fr_of_outWorld (genRun_fr fuel c w) h1
+    have ih := C05_gen_no_raise_history fuel cs w1 (fun c' hc' => hc c' (List.mem_cons_of_mem _ hc')) hg1
+      (fun c' hc' => (hp c' (List.mem_cons_of_mem _ hc')).fr hfr) (admScript_of_fr hfr ha)
+    simp only [genCalls, h1, List.length_cons, List.zip_cons_cons, List.mem_cons]
+    refine ⟨by rw [ih.1], fun co hco hr => ?_⟩
+    rcases hco with rfl | hco
+    · obtain ⟨v, w', h2, -, -⟩ := C05_gen_no_raise fuel c hc1 hr (hd1 hr) w hg hpre ha
+      exact ⟨v, w', h2⟩
+    · exact ih.2 co hco hr
 
 open Ebb3Gen in
 /-- **A recorded error is reported by the failure value (regenerated code).** If a regenerated request method of
